@@ -2,6 +2,7 @@ import Falcon.Driver.Util
 import Falcon.Model.Zq
 import Falcon.Model.Codec
 import Falcon.Model.KeyCodec
+import Falcon.Model.Ntt
 import Falcon.Spec.Codec
 /- dispatch of one line-protocol op to the model -/
 namespace Falcon.Driver
@@ -83,6 +84,15 @@ def execOp (chk : Bool) (tok : List String) : String :=
   | ["pk_from_bytes", n, hx] => renderDec (pkReencode (parseNat n) (parseHex hx))
   | ["sk_from_bytes", n, hx] => renderDec (skReencode chk (parseNat n) (parseHex hx))
   | ["sig_from_bytes", n, hx] => renderDec (sigReencode (parseNat n) (parseHex hx))
+  | ["felt_fft", a] => let v := parseNats a; renderInts (Ntt.ntt (Ntt.log2 v.length) v)
+  | ["felt_ifft", a] => let v := parseNats a; renderRes renderInts (Ntt.intt (Ntt.log2 v.length) v)
+  | ["ntt_roundtrip", a] =>
+      let v := parseNats a; let d := Ntt.log2 v.length
+      renderRes renderInts (Ntt.intt d (Ntt.ntt d v))
+  | ["ntt_mul", a, b] =>
+      let va := parseNats a; let vb := parseNats b; let d := Ntt.log2 va.length
+      renderRes renderInts (Ntt.intt d (Ntt.hadamard (Ntt.ntt d va) (Ntt.ntt d vb)))
+  | ["ref_negacyc", a, b] => let va := parseNats a; renderInts (Ntt.negacyc va.length va (parseNats b))
   | _ => "bad-op"
 
 end Falcon.Driver
